@@ -2,8 +2,8 @@
 Require Import TSS.Base.Base TSS.Orch.Membership TSS.Orch.Sessions TSS.Orch.SessionFacts.
 
 Definition mm3 : mmap := [(1, 10); (2, 20); (3, 30); (4, 10)].     (* nodes 1 and 4 are replicas of party 10 *)
-Definition plan_sign (t : N) (members : list N) (s1 : s1plan) (be : beplan) := mkPlan true t members s1 true true be true.
-Definition plan_kg (members : list N) (s1 : s1plan) (be : beplan) := mkPlan false 0 members s1 true true be true.
+Definition plan_sign (t : N) (members : list N) (s1 : s1plan) (be : beplan) := mkPlan true t members s1 true true be true false.
+Definition plan_kg (members : list N) (s1 : s1plan) (be : beplan) := mkPlan false 0 members s1 true true be true false.
 
 Definition hist1 : list event :=
   [ EStart 0 (plan_sign 7 [2; 3; 4] S1Ok BeBlock);      (* running: all four entries registered *)
